@@ -33,6 +33,7 @@ type sField struct {
 	Api    string // name under which the FieldChecker of an update knows the field ("" = the storage key): mapped with PersistContext.WithFieldOverrides
 	Ask    bool   // with Api: the strategy asks ProceedWithSet(Api) itself and then writes the storage key unconditionally
 	Always bool   // written whatever the checker says (the model counts it as selected by every checker)
+	Via  string // how the strategy persists the field: "" TypedBucket-level setter (SetString / SetStringP), "req" PersistContext.SetRequiredString, "gas" PersistContext.GetAndSetString (same stored value; not part of the schema text)
 }
 
 func (f sField) symName() string {
@@ -61,6 +62,8 @@ type sStore struct {
 	Sets   []string
 	Cons   []sCons // derived from the wiring script, in registration order
 	Links  []sLink
+	SetsVia string   // "gas": the string lists are persisted with PersistContext.GetAndSetStringList instead of SetStringList
+	LinkIds []string // local link fields the strategy persists with PersistContext.SetLinkedIds when the entity carries a value for them (gEnt.L)
 }
 
 type wiringDecl struct {
@@ -203,6 +206,7 @@ type gEnt struct {
 	etype string
 	F     map[string]*string
 	S     map[string][]string
+	L     map[string][]string // linked ids per local link field (sStore.LinkIds); nil / missing key = the strategy leaves the links alone
 }
 
 func (e *gEnt) GetEntityType() string { return e.etype }
@@ -241,6 +245,19 @@ func (st *gStrategy) PersistEntity(e *gEnt, ctx *boltz.PersistContext) {
 	c04ApplyOverrides(st.def, ctx) // Api attributes; no-op for stores without them
 	for _, f := range st.def.Fields {
 		v := e.F[f.Name]
+		if f.Via != "" && !f.Ptr {
+			// the PersistContext-level helpers (they store the same typed string value)
+			sv := ""
+			if v != nil {
+				sv = *v
+			}
+			if f.Via == "req" {
+				ctx.SetRequiredString(f.Name, sv)
+			} else {
+				ctx.GetAndSetString(f.Name, sv)
+			}
+			continue
+		}
 		if f.Req {
 			if v == nil {
 				ctx.SetRequiredString(f.Name, "")
@@ -259,7 +276,16 @@ func (st *gStrategy) PersistEntity(e *gEnt, ctx *boltz.PersistContext) {
 	}
 	if st.parent == nil {
 		for _, s := range st.def.Sets {
-			ctx.SetStringList(s, e.S[s])
+			if st.def.SetsVia == "gas" {
+				ctx.GetAndSetStringList(s, e.S[s])
+			} else {
+				ctx.SetStringList(s, e.S[s])
+			}
+		}
+	}
+	for _, lf := range st.def.LinkIds {
+		if ids, ok := e.L[lf]; ok {
+			ctx.SetLinkedIds(lf, append([]string{}, ids...)) // SetLinks sorts its argument in place
 		}
 	}
 	if gPersistWitness != nil {
